@@ -302,7 +302,7 @@ def layer_a(ctx, stats):
                 if exp != got or type(exp) is not type(got):
                     ctx.fail(f"the constant folded into {site} is not the run-time value of the argument", {**case, "runtime_env": rt, "site": site},
                              exp, got, key="fold-site")
-        mnum, mbool, mgly = msites
+        mnum, mbool, mgly, mslp = msites
         for name, mo, ro, conv in (("blink/_resolve_numeric_arg", mnum, rb, lambda w: w),
                                    ("backlight/_resolve_bool_arg", mbool, rl, lambda w: bool(w)),
                                    ("glyph", mgly, rg, lambda w: list(w))):
@@ -311,10 +311,10 @@ def layer_a(ctx, stats):
             if d and not d.startswith("skip"):
                 ctx.disagree(f"call site {name}: {d}", case, mo, ro)
         # sleep(...) is int(_eval_const(...)): like _resolve_numeric_arg except that int() also accepts numeric strings
-        if not (mres[0] == 0 and mres[1][0] == 3):
-            d = cmp_site(mnum, rs, lambda w: w, exact)
-            if d and not d.startswith("skip"):
-                ctx.disagree(f"call site sleep: {d}", case, mnum, rs)
+        stats["site:sleep:" + rs[0]] += 1
+        d = cmp_site(mslp, rs, lambda w: w, exact)
+        if d and not d.startswith("skip"):
+            ctx.disagree(f"call site sleep: {d}", case, mslp, rs)
     return len(cases) + len(payload), len(distinct), [cases[0][0], cases[len(BOUNDARY_EXPRS)][0], cases[-1][0]]
 
 
